@@ -464,6 +464,23 @@ def alpha(node_or_text):
     else:
         node = copy.deepcopy(node_or_text)
     keep = {'self', 'cls', 'np', 'numpy', 'True', 'False', 'None'}
+
+    class _Orient(ast.NodeTransformer):
+        # one orientation for comparisons: a > b is b < a, a >= b is b <= a; literals on the right
+        def visit_Compare(self, n):
+            self.generic_visit(n)
+            if len(n.ops) == 1 and not isinstance(n.left, ast.Constant):
+                if isinstance(n.ops[0], ast.Gt) and not isinstance(n.comparators[0], ast.Constant):
+                    return ast.copy_location(ast.Compare(left=n.comparators[0], ops=[ast.Lt()], comparators=[n.left]), n)
+                if isinstance(n.ops[0], ast.GtE) and not isinstance(n.comparators[0], ast.Constant):
+                    return ast.copy_location(ast.Compare(left=n.comparators[0], ops=[ast.LtE()], comparators=[n.left]), n)
+            if len(n.ops) == 1 and isinstance(n.left, ast.Constant) and not isinstance(n.comparators[0], ast.Constant):
+                flip = {ast.Eq: ast.Eq, ast.NotEq: ast.NotEq, ast.Lt: ast.Gt, ast.Gt: ast.Lt, ast.LtE: ast.GtE, ast.GtE: ast.LtE}.get(type(n.ops[0]))
+                if flip:
+                    return ast.copy_location(ast.Compare(left=n.comparators[0], ops=[flip()], comparators=[n.left]), n)
+            return n
+    node = _Orient().visit(node)
+    ast.fix_missing_locations(node)
     names = {}
     # source order, not ast.walk order
     order = sorted((n for n in ast.walk(node) if isinstance(n, ast.Name)), key=lambda n: (getattr(n, 'lineno', 0), getattr(n, 'col_offset', 0)))
